@@ -5,6 +5,9 @@ CHECKS = [
     dict(id="C06", technique="bounded exhaustive enumeration (data x K x initial centroids x caps x thresholds x chunkings) on the real code vs exact rational Lloyd reference",
          text="Every k-means fit of the enumerated product is executed on the implementation and compared, iteration by iteration, with an exact Fraction model of Lloyd's algorithm (centroids, reported criterion, independent distortion, stopping iteration). Exhaustive within the stated alphabets; this is the level the property needs because the defects it guards against (criterion scaled per chunk, off-by-one stop) are value- and configuration-dependent, not schedule-dependent.",
          note=TRUST),
+    dict(id="C04", engine="sched", technique="stateless exploration of Dask task schedules (all linear extensions / deviation-bounded) x chunk layouts x shared|serialised executor on the real code",
+         text="For every trainer configuration, every composition of the rows (and of the feature axis for k-means/GMM) and both executor models, the controlled scheduler enumerates the task orders of every graph the library submits (all linear extensions of the library tasks when few, else all schedules within the deviation bound) and every execution is compared with the in-memory training. Exhaustive within the stated bounds; schedule- and placement-dependent defects (missing copy-back, chunk-weighted reductions) cannot be reached by the suite's single default-scheduler run.",
+         note=TRUST + " Scheduler model: tasks atomic, placement all-shared or all-serialised."),
 ]
 _PENDING = "check not built yet in this round (planned, see DESIGN.md section 10); not claimed until it runs clean"
 NOT_APPLICABLE = [dict(property_id="C%02d" % i, reason=_PENDING) for i in range(1, 21) if "C%02d" % i not in {c["id"] for c in CHECKS}]
